@@ -93,6 +93,25 @@ func (e *Engine) loModel(fr *frame, ins ssa.Instruction, name string, fn *ssa.Fu
 		e.sc.addTagged("order.sort", fmt.Sprintf("(assert (forall ((%s %s) (%s %s)) %s))", a, SI64, b, SI64, implies(and(reach, rng), not(lessBA))))
 		// (the stability of SliceStable is not modelled: nothing here relies on it)
 		return nil, reach, true
+	case "github.com/samber/lo.ToPtr":
+		// ToPtr(x) = &x : a fresh cell holding x
+		use()
+		pt, ok := resT.(*types.Pointer)
+		if !ok {
+			if tup, isT := resT.(*types.Tuple); isT && tup.Len() == 1 {
+				pt, ok = tup.At(0).Type().(*types.Pointer)
+			}
+		}
+		if !ok {
+			return nil, reach, false
+		}
+		ref := e.alloc()
+		pv := PtrVal{Base: ref, Root: pt.Elem()}
+		saveG := e.guard
+		e.guard = "true"
+		e.store(heap, pv, pt.Elem(), args[0])
+		e.guard = saveG
+		return pv, reach, true
 	case "github.com/samber/lo.Map":
 		// Map(collection []T, iteratee func(T, int) R) []R : len equal, result[i] == f(c[i], i)
 		use()
